@@ -249,3 +249,51 @@ func InsertMoofPssh(data []byte) ([]byte, error) {
 	}
 	return out, nil
 }
+
+// PadMdat returns a copy of a media segment (… moof mdat) whose mdat carries bytes no sample refers to: lead bytes in
+// front of the first sample (every trun data_offset is moved along) and trail bytes after the last one. Legal: a
+// trun's data_offset may point anywhere inside the media data box. Segments with tfhd base_data_offset are refused.
+func PadMdat(seg []byte, lead, trail int) ([]byte, error) {
+	top, err := ref.Walk(seg, 0, int64(len(seg)), true)
+	if err != nil {
+		return nil, err
+	}
+	out := append([]byte(nil), seg...)
+	var moof *ref.Box
+	for i := len(top) - 1; i >= 0; i-- {
+		b := top[i]
+		switch b.Type {
+		case "mdat":
+			if moof != nil || b.Hdr != 8 || i == 0 || top[i-1].Type != "moof" {
+				return nil, fmt.Errorf("variant: unsupported layout")
+			}
+			pad := make([]byte, lead+trail)
+			for j := range pad {
+				pad[j] = 0xa5
+			}
+			nb := append([]byte(nil), out[:b.Payload()]...)
+			nb = append(nb, pad[:lead]...)
+			nb = append(nb, out[b.Payload():b.End()]...)
+			nb = append(nb, pad[lead:]...)
+			nb = append(nb, out[b.End():]...)
+			binary.BigEndian.PutUint32(nb[b.Start:], uint32(b.Size)+uint32(lead+trail))
+			out = nb
+			moof = top[i-1]
+			for _, traf := range moof.FindAll("traf") {
+				if tfhd := traf.Find("tfhd"); tfhd != nil && seg[tfhd.Payload()+3]&0x01 != 0 {
+					return nil, fmt.Errorf("variant: tfhd with base_data_offset")
+				}
+				for _, c := range traf.FindAll("trun") {
+					if seg[c.Payload()+3]&0x01 != 0 {
+						at := c.Payload() + 8
+						binary.BigEndian.PutUint32(out[at:], uint32(int32(binary.BigEndian.Uint32(out[at:]))+int32(lead)))
+					} else if lead > 0 {
+						return nil, fmt.Errorf("variant: trun without data_offset")
+					}
+				}
+			}
+			moof = nil
+		}
+	}
+	return out, nil
+}
